@@ -39,7 +39,9 @@ func init() {
 				"Go map iteration order not controlled",
 			}, out.Violations, nil
 		},
-		Replay: func(c *runCtx, file string) error { return replayBFS(c, "c01", file, func(t string) interface{} { o, _, _ := c01Opts(t); return o }) },
+		Replay: func(c *runCtx, file string) error {
+			return replayBFS(c, "c01", file, func(t string) interface{} { o, _, _ := c01Opts(t); return o })
+		},
 	}
 }
 
